@@ -128,10 +128,12 @@ def table(prop, lentil, rng):
             lambda: s1.bin(c, interp_method='simps', ends='symmetric', preserve_power=True, sample_method='linear', fill_value=0, waveunit='nm'))
         add('Spectrum.integrate(start, end, method)', lambda: s1.integrate(), lambda: s1.integrate(start=None, end=None, method='simps'))
         add('Spectrum.integrate(start=None, end=None are the ends of the data)', lambda: s1.integrate(method='trapz'), lambda: s1.integrate(400.0, 600.0, method='trapz'))
+        cw = np.arange(360.0, 660.0, 20.0)        # (reaches beyond the data on both sides: the fill value matters)
         def resample_default():
-            t = s1.copy(); t.resample(c); return (t.wave, t.value, t.waveunit)
+            t = s1.copy(); t.resample(cw); return (t.wave, t.value, t.waveunit)
         def resample_explicit():
-            t = s1.copy(); t.resample(c, method='linear', fill_value=0, waveunit='nm'); return (t.wave, t.value, t.waveunit)
+            t = s1.copy(); t.resample(cw, method='linear', fill_value=0, waveunit='nm'); return (t.wave, t.value, t.waveunit)
+        add('Spectrum.bin(fill_value) beyond the data', lambda: s1.bin(cw, preserve_power=False), lambda: s1.bin(cw, preserve_power=False, fill_value=0))
         add('Spectrum.resample(method, fill_value, waveunit)', resample_default, resample_explicit)
         v = s1.value.copy(); v[:3] = 0; v[3] = 5e-5 * v.max(); v[-2:] = 0
         def trim_default():
